@@ -14,6 +14,7 @@ func init() {
 	register(&Prop{ID: "C07", Run: runC07,
 		Technique: "static analysis: must-pass-through / ordering of file operations on go/ssa CFGs, flag-constant checks, error value-flow",
 		Decided: []string{
+			"the compaction is only ever given the closing writer's own file (C07.compact-own-file)",
 			"history Rename moves the run files one by one: every os.Rename it reaches has an element of a directory listing as its source (C07.rename-file-by-file)",
 			"a status write is acknowledged (nil returned) only after a bufio Flush on that path (C07.ack-after-flush)",
 			"compaction removes the original only after the copy was written successfully under its final name; the error path removes only the copy; nothing is renamed after the removal (C07.compact-order)",
@@ -37,6 +38,7 @@ func runC07(e *Env) {
 	c07EmptyNewest(e)
 	c07Candidates(e)
 	cHistoryRenameSingly(e, "C07.rename-file-by-file")
+	c07CompactOwnFile(e)
 }
 
 // mayBeNil: a returned error value that is not known to be non-nil at the return.
